@@ -3,7 +3,7 @@
     Core Liquid Fragment, which the correspondence run ties to /repo).
     The theorems state the documented laws of that semantics. *)
 From LQ Require Import Core.Render Proofs.Value_proofs Proofs.Render_proofs Proofs.Render_buffer Proofs.Render_fuel Proofs.CrossModel.
-From LQ Require Import Proofs.Render_control Proofs.Render_counters Proofs.Render_lambda Proofs.Value_decimal Proofs.CrossModel_decimal Proofs.CrossModel_values.
+From LQ Require Import Proofs.Render_control Proofs.Render_counters Proofs.Render_capture Proofs.Render_lambda Proofs.Value_decimal Proofs.CrossModel_decimal Proofs.CrossModel_values.
 From LQ Require Kernels.FVal Kernels.FiltersStr Kernels.FiltersSeq Kernels.ObjAccess Kernels.Undefined Kernels.Json Kernels.Markup Kernels.Printer.
 
 (** Sequencing is compositional: rendering [l1 ++ l2] is rendering [l1] and
@@ -332,3 +332,35 @@ Theorem c01_for_iteration_step : forall g rec x key len parent body it its i c b
   end.
 Proof. exact for_iter_cons. Qed.
 Print Assumptions c01_for_iteration_step.
+
+(** capture: the tag writes nothing to the caller's buffer, whatever the
+    outcome of its block (completion, break, continue, error, fuel). *)
+Theorem c01_capture_writes_nothing : forall g ld fuel x body c b,
+  bf (render g ld (S fuel) (NCapture x body) c b) = b.
+Proof. exact capture_writes_nothing. Qed.
+Print Assumptions c01_capture_writes_nothing.
+
+(** `{% capture x %}body{% endcapture %}{{ x }}`: when the block completes and
+    no block scope shadows [x], the pair leaves [x] bound, as a local, to exactly
+    the text the block wrote to its private buffer and writes that text. *)
+Theorem c01_capture_then_output : forall g ld fuel x body c b,
+  let r := block g (render g ld (S fuel)) body c empty_buf in
+  st r = SDone ->
+  chain_lookup x (scopes (cx r)) = None ->
+  let c' := set_locals (cx r) (dict_set x (VStr (text (bf r))) (locals (cx r))) in
+  nodes (render g ld (S (S fuel))) [NCapture x body; NOutput (EPath x [])] c b
+  = mk SDone c' (write b (text (bf r))).
+Proof. exact capture_then_output. Qed.
+Print Assumptions c01_capture_then_output.
+
+(** ... which is the text the block appends when it runs in place: for the
+    output, capturing and printing is the same as not capturing. *)
+Theorem c01_capture_then_output_is_body : forall g ld fuel x body c b,
+  null b = false ->
+  let r := block g (render g ld (S fuel)) body c empty_buf in
+  st r = SDone ->
+  chain_lookup x (scopes (cx r)) = None ->
+  text (bf (nodes (render g ld (S (S fuel))) [NCapture x body; NOutput (EPath x [])] c b))
+  = text (bf (block g (render g ld (S fuel)) body c b)).
+Proof. exact capture_then_output_is_body. Qed.
+Print Assumptions c01_capture_then_output_is_body.
